@@ -60,4 +60,17 @@ def muxRegister (filters : List Bytes) : List (Nat × List Bytes) :=
 def muxServe (handlers : List (Nat × List Bytes)) (topic : Bytes) : List Nat :=
   (handlers.filter (fun h => matchTopic h.2 topic)).map (·.1)
 
+/-- A ServeMux used over time: `Handle` and `Serve` calls interleaved (servemux.go keeps no other state than
+    the handler list, so every Serve sees exactly the handlers registered before it). -/
+inductive MuxOp
+  | handle (f : Bytes)
+  | serve (t : Bytes)
+  deriving Repr
+
+/-- the handlers called by each Serve, in order; `fs` = filters passed to Handle so far -/
+def muxSeq : List MuxOp → List Bytes → List (List Nat)
+  | [], _ => []
+  | .handle f :: rest, fs => muxSeq rest (fs ++ [f])
+  | .serve t :: rest, fs => muxServe (muxRegister fs) t :: muxSeq rest fs
+
 end Mqtt
